@@ -832,18 +832,19 @@ func firstLineOf(b []byte) string {
 // diffClass turns "a.b: want X, got Y" into a signature: attribute location and type.
 // queryMapBracketKey names a map attribute carried in the query string one of whose keys contains ']':
 // the wire form name[key]=value has no escaping for it (known finding).
-func queryMapBracketKey(d *spec.Design, m *spec.Method, payload any) string {
+func queryMapBracketKey(d *spec.Design, m *spec.Method, payload any, attr string) bool {
 	obj, _ := payload.(map[string]any)
-	for a := range m.Params {
-		if mv, ok := obj[a].(*gen.MapVal); ok {
-			for _, k := range mv.K {
-				if ks, ok := k.(string); ok && strings.Contains(ks, "]") {
-					return a
-				}
+	if _, inQuery := m.Params[attr]; !inQuery {
+		return false
+	}
+	if mv, ok := obj[attr].(*gen.MapVal); ok {
+		for _, k := range mv.K {
+			if ks, ok := k.(string); ok && strings.Contains(ks, "]") {
+				return true
 			}
 		}
 	}
-	return ""
+	return false
 }
 
 func diffClassP(d *spec.Design, m *spec.Method, diff string, payload any) string {
@@ -852,7 +853,7 @@ func diffClassP(d *spec.Design, m *spec.Method, diff string, payload any) string
 		path = diff[:i]
 	}
 	top := strings.SplitN(strings.SplitN(path, ".", 2)[0], "[", 2)[0]
-	if a := queryMapBracketKey(d, m, payload); a != "" && a == top {
+	if queryMapBracketKey(d, m, payload, top) {
 		return "query-map-key-contains-closing-bracket"
 	}
 	return diffClass(d, m, diff)
